@@ -308,6 +308,28 @@ func clauseHasProp(ct *FuncContract, p string) bool {
 				return true
 			}
 		}
+		for _, c := range l.BackEdge {
+			if hasProp(c.Props, p) {
+				return true
+			}
+		}
+	}
+	for _, c := range ct.UnlockAsserts {
+		if hasProp(c.Props, p) {
+			return true
+		}
+	}
+	for _, c := range ct.CallAsserts {
+		if hasProp(c.Clause.Props, p) {
+			return true
+		}
+	}
+	for _, cs := range ct.StoreAsserts {
+		for _, c := range cs {
+			if hasProp(c.Props, p) {
+				return true
+			}
+		}
 	}
 	return false
 }
